@@ -114,8 +114,8 @@ PLAN = {
         assumptions=[],
     ),
     "C05": dict(
-        stages=[ls("C05", q=400), ls_async_quick("C05")],
-        rule=LS + "; cleanup intervals 0.1/0.25/0.5/1/2(default, read back from the hook)/3/5 s, every tick phase",
+        stages=[ls("C05", q=400), ls_async_quick("C05"), ho("C05", q=60, t=600)],
+        rule=LS + "; cleanup intervals 0.1/0.25/0.5/1/2(default, read back from the hook)/3/5 s, every tick phase || " + HO + " (clause: at the quiescent end, 8 s of virtual time and one tick after the clients were joined, nothing whose deadline + bucket width + interval has passed is still resident - also entries the stalled processor filed after their bucket had been swept)",
         clauses=["never early: reclaimed only with deadline <= tick time", "bounded delay: deadline + 1 s + interval <= tick time => gone from store, policy, len()", "on_evict exactly once with id and charged cost", "charge released",
                  "2 of 10 histories under a colliding key builder (inserts / removes of keys sharing the index hash): the never-early and bounded-delay clauses stay decided there (entry identified by its value id)",
                  "real ticker (10 ms) scenario per flavour: wiring of the tick arm"],
